@@ -98,6 +98,10 @@ def run(chk):
         {'pat': rl.s2l('re/') + [TOKEN] + rl.s2l('/bar'), 'filters': ['re(to.)'], 'names': ['']},
         {'pat': rl.s2l('f/') + [TOKEN] + rl.s2l('x') + [TOKEN], 'filters': ['float(None)', 'int(None)'], 'names': ['a', 'b']},
         {'pat': rl.s2l('static/only'), 'filters': [], 'names': []},
+        # a literal that starts with a digit directly after a wildcard
+        {'pat': rl.s2l('img/') + [TOKEN] + rl.s2l('2x.png'), 'filters': ['re([a-z]+)'], 'names': ['name']},
+        {'pat': [TOKEN] + rl.s2l('4') + [TOKEN], 'filters': ['re([a-z]+)', 'None'], 'names': ['lang', 'topic']},
+        {'pat': rl.s2l('v/') + [TOKEN] + rl.s2l('1/') + [TOKEN] + rl.s2l('007'), 'filters': ['None', 're([a-z]+)'], 'names': ['a', '']},
         # directly adjacent wildcards followed by literal text
         {'pat': [TOKEN, TOKEN] + rl.s2l('/tail'), 'filters': ['int(None)', 'None'], 'names': ['a', 'b']},
         {'pat': rl.s2l('x/') + [TOKEN, TOKEN] + rl.s2l('-end/') + [TOKEN], 'filters': ['int(None)', 're([a-z]+)', 'None'], 'names': ['n', 'w', 'z']},
